@@ -118,7 +118,7 @@ func emitTotal(c *reg.Ctx, kind, doc string) rendered {
 			Nontrivial: true, Direct: r.fail + " on input " + fmt.Sprintf("%q", clip(doc, 400))})
 		return r
 	}
-	if len(doc) > 3000 {
+	if len(doc) > 1500 || len(r.html) > 5000 || len(r.blocks) > 1500 {
 		// large adversarial inputs: totality only (keeps the Coq shards small)
 		c.Emit(reg.Case{Coq: App("KBlocks", List(nil)), Desc: desc{Kind: class, Input: clip(doc, 200), Note: "totality only"},
 			Key: "T" + doc, Class: class, Nontrivial: true})
